@@ -369,7 +369,7 @@ def run_shape(E, spec, R, rng):
         k = rng.randrange(n)
         m = len(doc[k])
         mode = rng.choice(('tag-width', 'tag-rows', 'dep-shape', 'dep-square', 'doc-vs-scores', 'single-scores', 'dup-cats', 'cat-list-short',
-                           'both-for-other-length', 'both-for-other-length'))
+                           'both-for-other-length', 'both-for-other-length', 'empty-misshaped'))
         if mode == 'tag-width':
             scores[k] = ScoringResult(np.zeros((m, T + 1), dtype=np.float32), scores[k].dep_scores)
         elif mode == 'tag-rows':
@@ -378,6 +378,10 @@ def run_shape(E, spec, R, rng):
             scores[k] = ScoringResult(scores[k].tag_scores, np.zeros((m, m + 2), dtype=np.float32))
         elif mode == 'dep-square':
             scores[k] = ScoringResult(scores[k].tag_scores, np.zeros((m, m), dtype=np.float32))
+        elif mode == 'empty-misshaped':
+            k = rng.randrange(1, n)
+            doc[k] = []
+            scores[k] = ScoringResult(np.zeros((rng.choice((1, 2)), T), dtype=np.float32), np.zeros((0, rng.choice((2, 3))), dtype=np.float32))
         elif mode == 'both-for-other-length':
             d = rng.choice((-1, 1, 2)) if m > 1 else rng.choice((1, 2))
             scores[k] = ScoringResult(np.zeros((m + d, T), dtype=np.float32), np.zeros((m + d, m + d + 1), dtype=np.float32))
